@@ -128,6 +128,10 @@ func (r *renderer) value(v *Value, path string) {
 		}
 	}
 	lenAt, lenSize, lenIdx := -1, 0, -1
+	discIdx := -1
+	if di := ts.DynIndex(); di >= 0 {
+		discIdx = ts.FieldIndex(ts.Fields[di].Disc)
+	}
 	for _, i := range order {
 		f := ts.Fields[i]
 		if r.opts != nil && r.opts.FieldHook != nil {
@@ -140,9 +144,15 @@ func (r *renderer) value(v *Value, path string) {
 		case "num":
 			r.out = putUint(r.out, x.N&NMask(f.NType), NSize(f.NType), le)
 			r.span(p, "num", off, NSize(f.NType), NMask(f.NType))
+			if i == discIdx {
+				r.span(p, "disc", off, NSize(f.NType), NMask(f.NType))
+			}
 		case "fixtext":
 			r.out = append(r.out, refFixedWrite(x.T, f.Width, byte(f.Pad), f.Left)...)
 			r.span(p, "fixtext", off, f.Width, 0)
+			if i == discIdx {
+				r.span(p, "disc", off, f.Width, uint64(f.Pad))
+			}
 		case "text":
 			r.prefix(p, "prefix", f.Prefix, len(x.T), le)
 			o2 := len(r.out)
